@@ -87,15 +87,6 @@ StepOK(I, op, R) ==
          /\ ASetT[[a |-> R.a, len |-> R.len]] = {(p + 2 * op.x) % T2 : p \in ASetT[[a |-> I.a, len |-> I.len]]}
 StepImage == [][StepOK(iv, act', iv')]_vars
 
-(* ---- size of the EITHER bands over the generated argument space (printed once; recorded in the evidence) ---- *)
-Band(S) == [either |-> Cardinality({x \in S : x[3] = "EITHER"}), total |-> Cardinality(S)]
-BandStats ==
-  PrintT(<<"BAND", ToJson([
-    angle_contains |-> Band({<<A, th, ExpAngleContains(A, 2 * th)>> : A \in AIntervals, th \in -ThMax..ThMax}),
-    angle_contains_interval |-> Band(UNION {{<<A, J, ExpAngleContainsInterval(A, J)>> : J \in JsFor(A)} : A \in AIntervals}),
-    angle_overlaps |-> Band(UNION {{<<A, J, ExpAngleOverlaps(A, J)>> : J \in JsFor(A)} : A \in AIntervals})])>>)
-ASSUME BandStats
-
 (* ---- generation: one case per interval, with the argument domains of every operation ---- *)
 HQueries == {2 * x : x \in -(K + 2)..(K + 2)}
 Emit ==
@@ -108,5 +99,9 @@ Emit ==
                                  rounds |-> Rounds])>>)
   ELSE PrintT(<<"CASE", ToJson([kind |-> "angle", a |-> iv.a, len |-> iv.len,
                                  ths |-> -ThMax..ThMax, shifts |-> Shifts,
-                                 js |-> {<<J.a, J.len>> : J \in JsFor(AI)}])>>)
+                                 js |-> {<<J.a, J.len>> : J \in JsFor(AI)},
+                                 \* size of the EITHER bands among the arguments of this case (summed up in the evidence)
+                                 either |-> [angle_contains |-> Cardinality({th \in -ThMax..ThMax : ExpAngleContains(AI, 2 * th) = "EITHER"}),
+                                             angle_contains_interval |-> Cardinality({J \in JsFor(AI) : ExpAngleContainsInterval(AI, J) = "EITHER"}),
+                                             angle_overlaps |-> Cardinality({J \in JsFor(AI) : ExpAngleOverlaps(AI, J) = "EITHER"})]])>>)
 =================================================================================
